@@ -35,6 +35,21 @@ def assume(cond):
 def enter(args: dict):
     """First statement of every harness: carve out known-finding regions."""
     for expr in EXCLUDES:
+        if expr.startswith("CALL:"):
+            # one exact argument tuple whose counterexample did not reproduce under plain Python: look elsewhere
+            import ast as _ast
+            pos, kw = _ast.literal_eval(expr[5:])
+            names = list(args)
+            want = dict(zip(names, pos))
+            want.update(kw)
+            same = True
+            for k, v in want.items():
+                if k not in args or not (args[k] == v):
+                    same = False
+                    break
+            if same:
+                _ignore()
+            continue
         if eval(expr, {}, dict(args)):
             _ignore()
 
